@@ -603,9 +603,8 @@ Proof.
   intros H1 H2. rewrite split_sign_if. apply Z.eqb_neq in H1, H2. rewrite H1, H2. reflexivity.
 Qed.
 
-Lemma dec_of_string_unfold s :
-  dec_of_string s =
-  let '(neg, s1) := split_sign s in
+(* dec_of_string after the optional leading sign *)
+Definition parse_unsigned (neg : bool) (s1 : list Z) : dec :=
   match s1 with
   | [] => NaN
   | b :: _ =>
@@ -628,6 +627,9 @@ Lemma dec_of_string_unfold s :
       if bytes_eq l [105; 110; 102] || bytes_eq l [105; 110; 102; 105; 110; 105; 116; 121] then Inf neg
       else NaN
   end.
+
+Lemma dec_of_string_unfold s :
+  dec_of_string s = let '(neg, s1) := split_sign s in parse_unsigned neg s1.
 Proof. reflexivity. Qed.
 
 Lemma is_dig_range b : is_dig b = true -> 48 <= b <= 57.
@@ -679,13 +681,22 @@ Proof.
   - change (split_sign (45 :: ds)) with (true, ds). cbv beta iota. rewrite scan_digits_all by exact H. reflexivity.
 Qed.
 
-(* a well-formed literal is kept exactly: the coefficient is the integer spelled by all the
-   mantissa digits and the exponent is the written exponent minus the number of fraction digits *)
-Theorem literal_kept_exactly ip fp ex :
+Lemma literal_first_byte ip fp ex :
+  all_digits ip = true -> ip ++ frac_digits fp <> [] ->
+  exists b t, ip ++ frac_bytes fp ++ exp_bytes ex = b :: t /\ (is_dig b || (b =? 46)) = true.
+Proof.
+  intros Hip Hne. destruct ip as [|b ip'].
+  - destruct fp as [f|]; cbn [frac_bytes frac_digits app] in *; [|congruence].
+    exists 46, (f ++ exp_bytes ex). split; reflexivity.
+  - exists b, (ip' ++ frac_bytes fp ++ exp_bytes ex). split; [reflexivity|].
+    cbn [all_digits forallb] in Hip. apply andb_true_iff in Hip. destruct Hip as [Hb _]. rewrite Hb. reflexivity.
+Qed.
+
+Lemma parse_unsigned_literal neg ip fp ex :
   all_digits ip = true -> all_digits (frac_digits fp) = true -> exp_ok ex = true ->
   ip ++ frac_digits fp <> [] ->
-  dec_of_string (ip ++ frac_bytes fp ++ exp_bytes ex) =
-  Fin false (digit_val (ip ++ frac_digits fp)) (exp_value ex - Z.of_nat (length (frac_digits fp))).
+  parse_unsigned neg (ip ++ frac_bytes fp ++ exp_bytes ex) =
+  Fin neg (digit_val (ip ++ frac_digits fp)) (exp_value ex - Z.of_nat (length (frac_digits fp))).
 Proof.
   intros Hip Hfp Hex Hne.
   (* the mantissa scan *)
@@ -696,20 +707,8 @@ Proof.
     - cbn [scan_mant]. change (is_dig 46) with false. change (46 =? 46) with true. cbv iota.
       rewrite scan_mant_digits by exact Hfp. rewrite scan_mant_stop by exact Hex. reflexivity.
     - rewrite scan_mant_stop by exact Hex. reflexivity. }
-  (* the first byte is a digit or the point *)
-  assert (Hfirst : exists b t, ip ++ frac_bytes fp ++ exp_bytes ex = b :: t /\ (is_dig b || (b =? 46)) = true).
-  { destruct ip as [|b ip'].
-    - destruct fp as [f|]; cbn [frac_bytes frac_digits app] in *; [|congruence].
-      exists 46, (f ++ exp_bytes ex). split; reflexivity.
-    - exists b, (ip' ++ frac_bytes fp ++ exp_bytes ex). split; [reflexivity|].
-      cbn [all_digits forallb] in Hip. apply andb_true_iff in Hip. destruct Hip as [Hb _]. rewrite Hb. reflexivity. }
-  destruct Hfirst as (b & t & Hbt & Hb).
-  rewrite dec_of_string_unfold.
-  assert (Hsg : split_sign (ip ++ frac_bytes fp ++ exp_bytes ex) = (false, ip ++ frac_bytes fp ++ exp_bytes ex)).
-  { rewrite Hbt. apply split_sign_other.
-    - intros ->. discriminate Hb.
-    - intros ->. discriminate Hb. }
-  rewrite Hsg. rewrite Hscan. rewrite Hbt. rewrite Hb.
+  destruct (literal_first_byte ip fp ex Hip Hne) as (b & t & Hbt & Hb).
+  unfold parse_unsigned. rewrite Hscan. rewrite Hbt. rewrite Hb.
   destruct ex as [[[m s] ds]|]; cbn [exp_bytes exp_value].
   - cbn [exp_ok] in Hex. apply andb_true_iff in Hex. destruct Hex as [_ Hds].
     pose proof (exp_tail_value s ds Hds) as Ht.
@@ -717,6 +716,39 @@ Proof.
     destruct (scan_digits r2 0) as [x|]; [|discriminate Ht].
     injection Ht as Ht. rewrite Ht. f_equal. lia.
   - f_equal.
+Qed.
+
+(* a well-formed literal is kept exactly: the coefficient is the integer spelled by all the
+   mantissa digits and the exponent is the written exponent minus the number of fraction digits *)
+Theorem literal_kept_exactly ip fp ex :
+  all_digits ip = true -> all_digits (frac_digits fp) = true -> exp_ok ex = true ->
+  ip ++ frac_digits fp <> [] ->
+  dec_of_string (ip ++ frac_bytes fp ++ exp_bytes ex) =
+  Fin false (digit_val (ip ++ frac_digits fp)) (exp_value ex - Z.of_nat (length (frac_digits fp))).
+Proof.
+  intros Hip Hfp Hex Hne.
+  destruct (literal_first_byte ip fp ex Hip Hne) as (b & t & Hbt & Hb).
+  rewrite dec_of_string_unfold.
+  assert (Hsg : split_sign (ip ++ frac_bytes fp ++ exp_bytes ex) = (false, ip ++ frac_bytes fp ++ exp_bytes ex)).
+  { rewrite Hbt. apply split_sign_other.
+    - intros ->. discriminate Hb.
+    - intros ->. discriminate Hb. }
+  rewrite Hsg. apply parse_unsigned_literal; assumption.
+Qed.
+
+(* with a leading sign byte ('-' = 45, '+' = 43), as in the spelling of a negative float *)
+Theorem signed_literal_kept_exactly ip fp ex :
+  all_digits ip = true -> all_digits (frac_digits fp) = true -> exp_ok ex = true ->
+  ip ++ frac_digits fp <> [] ->
+  dec_of_string (45 :: ip ++ frac_bytes fp ++ exp_bytes ex) =
+  Fin true (digit_val (ip ++ frac_digits fp)) (exp_value ex - Z.of_nat (length (frac_digits fp))) /\
+  dec_of_string (43 :: ip ++ frac_bytes fp ++ exp_bytes ex) =
+  Fin false (digit_val (ip ++ frac_digits fp)) (exp_value ex - Z.of_nat (length (frac_digits fp))).
+Proof.
+  intros Hip Hfp Hex Hne. rewrite !dec_of_string_unfold.
+  change (split_sign (45 :: ip ++ frac_bytes fp ++ exp_bytes ex)) with (true, ip ++ frac_bytes fp ++ exp_bytes ex).
+  change (split_sign (43 :: ip ++ frac_bytes fp ++ exp_bytes ex)) with (false, ip ++ frac_bytes fp ++ exp_bytes ex).
+  split; apply parse_unsigned_literal; assumption.
 Qed.
 
 Theorem dec_of_Z_exact n : dec_of_Z n = Fin (n <? 0) (Z.abs n) 0 /\ scoef (n <? 0) (Z.abs n) = n.
